@@ -42,11 +42,12 @@ type c05File struct {
 }
 
 type c05Scenario struct {
-	Files []*c05File `json:"files"`
-	Steps []c05Step  `json:"steps"`
+	StalledH int        `json:"stalled_partial_of_another_file_hours_before,omitempty"`
+	Files    []*c05File `json:"files"`
+	Steps    []c05Step  `json:"steps"`
 }
 
-func runC05Stage(c *Ctx) {
+func runC05Stage(c *Ctx, prop string) {
 	n := c.N(400, 8000)
 	for i := 0; i < n; i++ {
 		idx := 2_000_000 + i
@@ -57,17 +58,17 @@ func runC05Stage(c *Ctx) {
 		sc := &c05Scenario{}
 		dir := filepath.Join(c.Work, fmt.Sprintf("c05s-%d", idx))
 		c.Guard(idx, sc, func() {
-			bubble(c.T, func() { c05StageRun(c, idx, rng, sc, dir) })
+			bubble(c.T, func() { c05StageRun(c, prop, idx, rng, sc, dir) })
 		})
 		os.RemoveAll(dir)
 	}
 }
 
-func c05StageRun(c *Ctx, idx int, rng *rand.Rand, sc *c05Scenario, dir string) {
+func c05StageRun(c *Ctx, prop string, idx int, rng *rand.Rand, sc *c05Scenario, dir string) {
 	res := c.Res
 	res.Eval()
 	viol := func(clause, fp, detail string) {
-		res.Violate(Violation{Clause: clause, Fingerprint: "C05/" + fp, Detail: detail, Scenario: sc, Index: idx})
+		res.Violate(Violation{Clause: clause, Fingerprint: prop + "/" + fp, Detail: detail, Scenario: sc, Index: idx})
 	}
 	// start at a PRNG time of day so that log windows begin before / after "now"'s time of day
 	time.Sleep(time.Duration(rng.Intn(86400)) * time.Second)
@@ -105,6 +106,18 @@ func c05StageRun(c *Ctx, idx int, rng *rand.Rand, sc *c05Scenario, dir string) {
 		if cf.Held {
 			anyHeld = true
 		}
+	}
+	if rng.Intn(3) == 0 {
+		// a stalled transfer of some other file from hours ago: its companion is the
+		// oldest thing in the staging area when the receiver is restarted later (the
+		// log is then replayed from that companion's time minus a day)
+		sc.StalledH = 3 + rng.Intn(40)
+		sd := randBytes(rng, 80)
+		d := &desc{Name: "stalled/other.dat", Hash: md5hex(sd), Size: 80, Time: time.Now().Add(-time.Hour), Beg: 0, End: 40, Send: 80}
+		rs.Stage.Prepare([]sts.Binned{d})
+		_ = rs.Stage.Receive(d.partial("src"), &chunkyReader{data: sd[:40], rng: rng, stop: -1})
+		time.Sleep(time.Duration(sc.StalledH)*time.Hour + time.Duration(rng.Intn(3600))*time.Second)
+		rs.restamp()
 	}
 	prevName := "pred/never-sent-until-released.dat"
 	descOf := func(cf *c05File, t iv) *desc {
